@@ -208,8 +208,9 @@ Definition has_dup_key {A} (m : list (bytes * A)) : bool :=
 
 (* One data item.  [tag] = the tag already read for this item (stepHelper_acceptValue
    recursing after a tag head).  [seq] reads the elements of an array (ismap = false)
-   or the entries of a map: [lim = Some n] definite, [None] until a break. *)
-Fixpoint item (chk : bool) (fuel : nat) (tag : option N) (b : bytes) : res (node * bytes) :=
+   or the entries of a map: [lim = Some n] definite, [None] until a break.
+   Repeated map keys are NOT rejected here (see [decode] / [decode_lax]). *)
+Fixpoint item (fuel : nat) (tag : option N) (b : bytes) : res (node * bytes) :=
   match fuel with
   | O => Err EOutOfFuel
   | S f =>
@@ -229,10 +230,9 @@ Fixpoint item (chk : bool) (fuel : nat) (tag : option N) (b : bytes) : res (node
           else if hb =? 127 then                                  (* 0x7f *)
             '(x, r1) <- rd_chunks f MajTextString r ;; Ok (NString x, r1)
           else if hb =? 159 then                                  (* 0x9f *)
-            '(es, r1) <- seq chk f None false r ;; Ok (NList (map snd es), r1)
+            '(es, r1) <- seq f None false r ;; Ok (NList (map snd es), r1)
           else if hb =? 191 then                                  (* 0xbf *)
-            '(es, r1) <- seq chk f None true r ;;
-            if chk && has_dup_key es then Err EDupKey else Ok (NMap es, r1)
+            '(es, r1) <- seq f None true r ;; Ok (NMap es, r1)
           else
             let maj := hb / 32 in
             if maj =? MajUnsignedInt then
@@ -249,58 +249,67 @@ Fixpoint item (chk : bool) (fuel : nat) (tag : option N) (b : bytes) : res (node
               '(x, r1) <- rd_str hb r ;; Ok (NString x, r1)
             else if maj =? MajArray then
               '(n, r1) <- rd_len hb r ;;
-              '(es, r2) <- seq chk f (Some n) false r1 ;; Ok (NList (map snd es), r2)
+              '(es, r2) <- seq f (Some n) false r1 ;; Ok (NList (map snd es), r2)
             else if maj =? MajMap then
               '(n, r1) <- rd_len hb r ;;
-              '(es, r2) <- seq chk f (Some n) true r1 ;;
-              if chk && has_dup_key es then Err EDupKey else Ok (NMap es, r2)
+              '(es, r2) <- seq f (Some n) true r1 ;; Ok (NMap es, r2)
             else if maj =? MajTag then
               match tag with
               | Some _ => Err ETag
-              | None => '(t, r1) <- rd_len hb r ;; item chk f (Some t) r1
+              | None => '(t, r1) <- rd_len hb r ;; item f (Some t) r1
               end
             else Err EHead
       end
   end
-with seq (chk : bool) (fuel : nat) (lim : option N) (ismap : bool) (b : bytes) : res (list (bytes * node) * bytes) :=
-  match fuel with
-  | O => Err EOutOfFuel
-  | S f =>
-      let stop := match lim, b with
-                  | Some n, _ => if n =? 0 then Some b else None
-                  | None, hb :: r => if hb =? 255 then Some r else None
-                  | None, [] => None
-                  end in
-      match stop with
-      | Some r => Ok ([], r)
-      | None =>
+with seq (fuel : nat) (lim : option N) (ismap : bool) (b : bytes) : res (list (bytes * node) * bytes) :=
+  let stop := match lim, b with
+              | Some n, _ => if n =? 0 then Some b else None
+              | None, hb :: r => if hb =? 255 then Some r else None
+              | None, [] => None
+              end in
+  match stop with
+  | Some r => Ok ([], r)
+  | None =>
+      match fuel with
+      | O => Err EOutOfFuel
+      | S f =>
           let lim' := match lim with Some n => Some (n - 1) | None => None end in
           if ismap then
-            '(k, r1) <- item chk f None b ;;
+            '(k, r1) <- item f None b ;;
             match k with
             | NString ks =>
-                '(v, r2) <- item chk f None r1 ;;
-                '(rest, r3) <- seq chk f lim' true r2 ;;
+                '(v, r2) <- item f None r1 ;;
+                '(rest, r3) <- seq f lim' true r2 ;;
                 Ok ((ks, v) :: rest, r3)
             | _ => Err EKey
             end
           else
-            '(v, r1) <- item chk f None b ;;
-            '(rest, r2) <- seq chk f lim' false r1 ;;
+            '(v, r1) <- item f None b ;;
+            '(rest, r2) <- seq f lim' false r1 ;;
             Ok (([], v) :: rest, r2)
       end
   end.
 
 Definition fuel_for (b : bytes) : nat := (2 * length b + 4)%nat.
 
-(* dagcbor.Decode: chk = true into basicnode.Prototype.Any, whose map assembler rejects a
-   repeated key; chk = false as the token stream reaches a bindnode typed builder, whose
-   struct assembler does not (see C13_IpldSchema.v) *)
-Definition decode_with (chk : bool) (b : bytes) : res node :=
-  '(n, r) <- item chk (fuel_for b) None b ;;
+(* some map of the node, at any depth, has a repeated key *)
+Fixpoint has_dup_deep (n : node) : bool :=
+  match n with
+  | NList l => existsb has_dup_deep l
+  | NMap m => has_dup_key m || existsb (fun kv => has_dup_deep (snd kv)) m
+  | _ => false
+  end.
+
+(* the token stream as a bindnode typed builder consumes it: the struct assembler does
+   not reject a repeated key (see C13_IpldSchema.v) *)
+Definition decode_lax (b : bytes) : res node :=
+  '(n, r) <- item (fuel_for b) None b ;;
   match r with [] => Ok n | _ => Err ETrailing end.
-Definition decode := decode_with true.
-Definition decode_lax := decode_with false.
+
+(* dagcbor.Decode into basicnode.Prototype.Any: the map assembler of basicnode rejects a
+   repeated key wherever it occurs *)
+Definition decode (b : bytes) : res node :=
+  n <- decode_lax b ;; if has_dup_deep n then Err EDupKey else Ok n.
 
 (* ---------------------------------------------------------------- *)
 (* well-formed nodes: what the encoder is specified for and the decoder gives back *)
@@ -315,9 +324,22 @@ Fixpoint wf_node (n : node) : bool :=
   | NString s => wf_bytes s && (blen s <=? MaxStr)
   | NBytes b => wf_bytes b && (blen b <=? MaxStr)
   | NLink c => wf_bytes c && is_ok (cast c) && (blen c <? MaxStr)
-  | NList l => forallb wf_node l
+  | NList l => forallb wf_node l && (nlen l <=? MaxInt)
   | NMap m => forallb (fun kv => wf_bytes (fst kv) && (blen (fst kv) <=? MaxStr) && wf_node (snd kv)) m
-              && negb (has_dup_key m)
+              && negb (has_dup_key m) && (nlen m <=? MaxInt)
+  end.
+
+(* canonical DAG-CBOR node: additionally every map is in the encoder's key order *)
+Fixpoint keys_sorted {A} (m : list (bytes * A)) : bool :=
+  match m with
+  | [] => true
+  | e :: r => match r with [] => true | e' :: _ => key_ltb (fst e) (fst e') end && keys_sorted r
+  end.
+Fixpoint canonical (n : node) : bool :=
+  match n with
+  | NList l => forallb canonical l
+  | NMap m => keys_sorted m && forallb (fun kv => canonical (snd kv)) m
+  | _ => true
   end.
 
 (* structural equality on nodes (floats are all equal: their value is not modelled) *)
